@@ -28,6 +28,7 @@ func init() {
 			}},
 			{"MERGE-CID-BOUND", ruleMergeCidBound},
 			{"FIELD-ID-PREFIX-EXACT", ruleFieldIDPrefixExact},
+			{"FIELD-BLOCK-ONCE", ruleFieldBlockOnce},
 			{"CLOSURE-NO-TOLERANCE", ruleClosureNoTolerance},
 			{"ERRFLOW", func(c *eng.Ctx) {
 				ruleErrFlowCone(c, "ERRFLOW", []string{"internal/core/block.AddDelta", "internal/core/block.ProcessBlock", "net.syncDAG"},
@@ -35,7 +36,7 @@ func init() {
 			}},
 		},
 		Meta: eng.PropMeta{
-			Explanation: "Decides the structural conditions of a well-formed commit DAG: (BLOCK-WRITERS) the shared block store is written only through link systems that derive the key from the encoded bytes (coreblock.putBlock, the network sync link system, the KMS key store, the versioned fetcher's private copy) — no other function of the module calls Put/PutMany/DeleteBlock/SetWriteStorage; (HEIGHT) AddDelta sets the delta's priority to exactly (max head height returned by heads.List) + 1 and passes the same heads to New as parents, and heads.List accumulates a maximum; (SYNC-BEFORE-MERGE) the merge event of a received commit is published only after syncDAG returned without error, and loadBlockLinks walks AllLinks with every failure reaching the returned error, and no exit of a link goroutine is silent — each has recorded an error or descended into its link, a cancelled context included (closure under ancestry before merge); (SORT-BEFORE-BUILD) parents and links are sorted before the block is built; (HEADS-UPDATE) updateHeads replaces a head only by the processed block's own cid, writes the new head on the leaf and new-branch paths, and every store failure is returned; (PURITY) block construction and encoding read no clock, randomness, environment or mutable package state; (ERRFLOW) storage errors are not dropped in the block/head cone. (CLOSURE-NO-TOLERANCE) every not-found test (errors.Is(err, …ErrNotFound…)) in the merge/apply cone is enumerated and classified by the producer of the error: a missing block-store block is never tolerated (only encryption-store and value/marker-key reads are). (MERGE-CID-BOUND) every merge event published by the network layer carries a cid that is bound to the synced data: the DAG was fetched by that cid, or the received block's own generated link was compared with it and a mismatch left the function. (FIELD-ID-PREFIX-EXACT) the short field id under which a field's commits and heads are filed is resolved from the entries of the requested collection only (as in C19).",
+			Explanation: "Decides the structural conditions of a well-formed commit DAG: (BLOCK-WRITERS) the shared block store is written only through link systems that derive the key from the encoded bytes (coreblock.putBlock, the network sync link system, the KMS key store, the versioned fetcher's private copy) — no other function of the module calls Put/PutMany/DeleteBlock/SetWriteStorage; (HEIGHT) AddDelta sets the delta's priority to exactly (max head height returned by heads.List) + 1 and passes the same heads to New as parents, and heads.List accumulates a maximum; (SYNC-BEFORE-MERGE) the merge event of a received commit is published only after syncDAG returned without error, and loadBlockLinks walks AllLinks with every failure reaching the returned error, and no exit of a link goroutine is silent — each has recorded an error or descended into its link, a cancelled context included (closure under ancestry before merge); (SORT-BEFORE-BUILD) parents and links are sorted before the block is built; (HEADS-UPDATE) updateHeads replaces a head only by the processed block's own cid, writes the new head on the leaf and new-branch paths, and every store failure is returned; (PURITY) block construction and encoding read no clock, randomness, environment or mutable package state; (ERRFLOW) storage errors are not dropped in the block/head cone. (CLOSURE-NO-TOLERANCE) every not-found test (errors.Is(err, …ErrNotFound…)) in the merge/apply cone is enumerated and classified by the producer of the error: a missing block-store block is never tolerated (only encryption-store and value/marker-key reads are). (MERGE-CID-BOUND) every merge event published by the network layer carries a cid that is bound to the synced data: the DAG was fetched by that cid, or the received block's own generated link was compared with it and a mismatch left the function. (FIELD-ID-PREFIX-EXACT) the short field id under which a field's commits and heads are filed is resolved from the entries of the requested collection only (as in C19). (FIELD-BLOCK-ONCE) a field block linked from more than one composite is applied, and becomes a head, once: on the field-block path of processBlock the apply is preceded by a check of the field's heads for the block's own cid and is unreachable when it answers 'already merged'.",
 			NotDecided:  "the head/frontier relation after arbitrary out-of-order and repeated merges (which blocks are heads is decided by runtime DAG shapes); hash correctness of third-party code; byte-identity of genesis commits across nodes beyond purity",
 		},
 	})
